@@ -268,6 +268,36 @@ def chain_family(depth=2, sizes=(3, 4), limit=None, rng=None):
         yield GSpec(rules, {t: ("str", t) for t in used})
 
 
+def juxta_family(stride=1):
+    """Grammars without empty productions built from juxtaposition and unit productions over three
+    nonterminals: several reductions on one lookahead in one state, links added to the head that is
+    reducing, heads revisited -- what the GLR reducer's re-reduction machinery is there for."""
+    import itertools
+    terms = {"a": ("str", "a"), "b": ("str", "b")}
+    a_alts = [["b"], ["A", "B"], ["A", "A"], ["a"], ["B", "A"]]
+    b_alts = [["A"], ["b"], ["B", "B"]]
+    out = []
+    k = 0
+    for s_rhs in (["A", "b"], ["A"]):
+        for am in range(1, 2 ** len(a_alts)):
+            asel = [a_alts[i] for i in range(len(a_alts)) if am >> i & 1]
+            if not any(x in (["b"], ["a"]) for x in asel):
+                continue
+            for bm in range(1, 2 ** len(b_alts)):
+                bsel = [b_alts[i] for i in range(len(b_alts)) if bm >> i & 1]
+                if not any(x in (["A"], ["b"]) for x in bsel):
+                    continue
+                k += 1
+                # the densest members always, the others every `stride`-th
+                dense = ["A", "B"] in asel and ["A", "A"] in asel and ["A"] in bsel
+                if not dense and k % stride:
+                    continue
+                rules = [("S", s_rhs)] + [("A", r) for r in asel] + [("B", r) for r in bsel]
+                used = {x for _, r in rules for x in r}
+                out.append(GSpec(rules, {t: v for t, v in terms.items() if t in used}))
+    return out
+
+
 def idiom_family():
     """Common grammar idioms in varying contexts: nullable / non-empty, left / right
     recursive lists, optionals and separated lists placed after a terminal, after a
